@@ -137,14 +137,14 @@ def inst_unit_vector(H, l, n):
     return build, check
 
 
-def inst_trailing_zeros(H, l):
+def inst_trailing_zeros(H, l, lbits=None):
     mpc = H.rt
     secint = mpc.SecInt(l); H.register_field(secint.field); p = secint.field.modulus
     lo, hi = rng(l)
 
     def build():
         x, v = H.secret(secint, 'a', lo, hi)
-        return H.open(mpc.trailing_zeros(x)), v
+        return H.open(mpc.trailing_zeros(x) if lbits is None else mpc.trailing_zeros(x, l=lbits)), v        # explicit l: the l low bits of a full-range (also negative) a
 
     def check(o, v):
         a = zt(v)
@@ -157,7 +157,7 @@ def inst_trailing_zeros(H, l):
     return build, check
 
 
-def inst_gcp2(H, l):
+def inst_gcp2(H, l, lbits=None):
     mpc = H.rt
     secint = mpc.SecInt(l); H.register_field(secint.field); p = secint.field.modulus
     lo, hi = rng(l)
@@ -165,7 +165,7 @@ def inst_gcp2(H, l):
     def build():
         x, v = H.secret(secint, 'a', lo, hi); y, w = H.secret(secint, 'b', lo, hi)
         if C.pins is None: C.add(z3.Or(zt(v) != 0, zt(w) != 0))
-        return H.open(mpc.gcp2(x, y)), (v, w)
+        return H.open(mpc.gcp2(x, y) if lbits is None else mpc.gcp2(x, y, l=lbits)), (v, w)
 
     def check(o, vw):
         a, b = zt(vw[0]), zt(vw[1])
